@@ -32,7 +32,11 @@ type DeclSet struct {
 func (ds *DeclSet) All() []*Decl { return append(append([]*Decl{}, ds.Opts...), ds.Args...) }
 
 // genDecls draws 1..5 options and 0..3 arguments. envProb/8 of them list one of the simulator's variables.
-func genDecls(t *Tape, envProb int) *DeclSet {
+func genDecls(t *Tape, envProb int) *DeclSet { return genDeclsKinds(t, envProb, false) }
+
+// genDeclsKinds: with stringOnly every container is a flag, a string or a list of strings, so that no
+// command-line token can ever fail a type conversion.
+func genDeclsKinds(t *Tape, envProb int, stringOnly bool) *DeclSet {
 	ds := &DeclSet{}
 	nOpt := 1 + t.Draw(5)
 	for i := 0; i < nOpt; i++ {
@@ -46,6 +50,9 @@ func genDecls(t *Tape, envProb int) *DeclSet {
 			d.Name = shortPool[i] + " " + longPool[i]
 		}
 		d.Kind = []ValKind{KBool, KBool, KString, KString, KInt, KFloat, KStrings, KInts, KFloats}[t.Draw(9)]
+		if stringOnly {
+			d.Kind = map[ValKind]ValKind{KBool: KBool, KString: KString, KInt: KString, KFloat: KString, KStrings: KStrings, KInts: KStrings, KFloats: KStrings}[d.Kind]
+		}
 		if i == nOpt-1 && t.Draw(12) == 0 {
 			// an application may declare its own -h (the library's help request still wins on the command line)
 			d.Name = []string{"h", "h host", "help"}[t.Draw(3)]
@@ -67,6 +74,12 @@ func genDecls(t *Tape, envProb int) *DeclSet {
 	for i := 0; i < nArg; i++ {
 		d := &Decl{IsArg: true, Name: argPool[i]}
 		d.Kind = []ValKind{KString, KString, KStrings, KStrings, KInt, KInts}[t.Draw(6)]
+		if stringOnly && d.Kind == KInt {
+			d.Kind = KString
+		}
+		if stringOnly && d.Kind == KInts {
+			d.Kind = KStrings
+		}
 		if t.Draw(16) < envProb {
 			d.EnvVars = []int{6}
 		}
